@@ -17,7 +17,11 @@ open Glom
     part of the corpus.) -/
 def userClassRows : ClassTable :=
   ["Obj", "Rec", "Tagged", "K0", "K1", "K2", "K3"].map (fun c => (c, [c, "object", "Hashable"])) ++
-  [("Color", ["Color", "Enum", "object", "Hashable"])] ++
+  [("Color", ["Color", "Enum", "object", "Hashable"]),
+   -- a class object / a function object as a VALUE (`obj "type#int"`, `obj "function#is_str_3"`: the very
+   -- object a `ty` / `pred` pattern node denotes, e.g. as a key of a target dict)
+   ("type", ["type", "object", "Hashable", "Callable"]),
+   ("function", ["function", "object", "Hashable", "Callable"])] ++
   -- user subclasses of the builtin containers and of str (they override nothing): the row of the
   -- builtin class — real MRO and virtual ABC bases — below the subclass itself
   [("MyDict", "dict"), ("MyList", "list"), ("MyTuple", "tuple"), ("MySet", "set"), ("MyFset", "frozenset"),
